@@ -315,7 +315,7 @@ static int g_skip_nulldata = 0;
 
 /* Result of reading a whole file through the batch reader: status sequence + content hash.  The
  * text form (when wanted) lists per batch rows and one hash per column. */
-typedef struct { uint64_t h; int nst; int st[MAXCALLS]; int nbatches; long rows; char* text; size_t tlen, tcap; } rres_t;
+typedef struct { uint64_t h; int nst; int st[MAXCALLS]; int nbatches; long rows; int unstable; char* text; size_t tlen, tcap; } rres_t;
 static void rr_puts(rres_t* r, const char* s) {
     size_t n = strlen(s);
     if (r->tlen + n + 1 > r->tcap) { r->tcap = (r->tcap + n + 1) * 2; r->text = realloc(r->text, r->tcap); if (!r->text) abort(); }
@@ -323,6 +323,22 @@ static void rr_puts(rres_t* r, const char* s) {
 }
 
 static int g_proj = 0;   /* 1: project by index (last, first column), 2: by name */
+/* hash of what a delivered batch holds in its own right: counts, null bitmaps and the fixed-width column data
+ * (byte-array strings are not followed).  carquet.h: "Batch data pointers are valid until carquet_row_batch_free()" -
+ * so this must not change while the NEXT batch is being read (by the same or by other worker threads). */
+static uint64_t batch_plain_hash(carquet_row_batch_t* b, const fspec_t* f) {
+    uint64_t h = FNV0; int nc = carquet_row_batch_num_columns(b);
+    for (int c = 0; c < nc; c++) {
+        const void* data; const uint8_t* nb; int64_t nv;
+        if (carquet_row_batch_column(b, c, &data, &nb, &nv) != CARQUET_OK) continue;
+        int fc = (g_proj == 1 || g_proj == 2) ? (c == 0 ? f->ncols - 1 : 0) : c;
+        char t = fc < f->ncols ? f->types[fc] : 'i';
+        h = fnv(h, &nv, sizeof nv);
+        if (nb && nv > 0) h = fnv(h, nb, (size_t)((nv + 7) / 8));
+        if (data && nv > 0 && (t | 0x20) != 'b' && !type_optional(t)) h = fnv(h, data, (size_t)nv * type_size(t));
+    }
+    return h;
+}
 static void read_all(carquet_reader_t* rd, const fspec_t* f, int batch, int nthr, rres_t* out, int with_gates) {
     memset(out, 0, sizeof *out);
     out->h = FNV0;
@@ -332,9 +348,11 @@ static void read_all(carquet_reader_t* rd, const fspec_t* f, int batch, int nthr
     snprintf(pn0, sizeof pn0, "c%d", f->ncols - 1); snprintf(pn1, sizeof pn1, "c0");
     if (g_proj == 1) { cfg.column_indices = pidx; cfg.num_columns = 2; }
     if (g_proj == 2) { cfg.column_names = pnames; cfg.num_column_names = 2; }
+    if (g_proj == 3) { cfg.column_names = pnames; cfg.num_column_names = 0; cfg.column_indices = pidx; cfg.num_columns = 0; }   /* empty projections = all columns */
     carquet_error_t err = CARQUET_ERROR_INIT;
     carquet_batch_reader_t* br = carquet_batch_reader_create(rd, &cfg, &err);
     if (!br) { out->st[out->nst++] = -(int)err.code - 1000; return; }
+    carquet_row_batch_t* prev = NULL; uint64_t prev_h = 0;
     for (int call = 0; call < MAXCALLS - 1; call++) {
         if (with_gates) {
             pthread_mutex_lock(&G.mu);
@@ -345,6 +363,11 @@ static void read_all(carquet_reader_t* rd, const fspec_t* f, int batch, int nthr
         carquet_status_t st = carquet_batch_reader_next(br, &b);
         out->st[out->nst++] = (int)st;
         out->h = fnv(out->h, &st, sizeof st);
+        if (prev) {
+            /* the previous batch is still held by the caller: it must be what it was when it was delivered */
+            if (batch_plain_hash(prev, f) != prev_h) { out->unstable++; out->h = fnv(out->h, "unstable", 8); }
+            carquet_row_batch_free(prev); prev = NULL;
+        }
         if (st != CARQUET_OK || !b) { if (b) carquet_row_batch_free(b); break; }
         int64_t rows = carquet_row_batch_num_rows(b);
         int nc = carquet_row_batch_num_columns(b);
@@ -355,7 +378,7 @@ static void read_all(carquet_reader_t* rd, const fspec_t* f, int batch, int nthr
             uint64_t ch = FNV0;
             if (carquet_row_batch_column(b, c, &data, &nb, &nv) != CARQUET_OK) { ch = 1; }
             else {
-                int fc = g_proj ? (c == 0 ? f->ncols - 1 : 0) : c;
+                int fc = (g_proj == 1 || g_proj == 2) ? (c == 0 ? f->ncols - 1 : 0) : c;
                 char t = fc < f->ncols ? f->types[fc] : 'i';
                 ch = fnv(ch, &nv, sizeof nv);
                 if (nb && nv > 0) ch = fnv(ch, nb, (size_t)((nv + 7) / 8));
@@ -376,8 +399,9 @@ static void read_all(carquet_reader_t* rd, const fspec_t* f, int batch, int nthr
             snprintf(tmp, sizeof tmp, "%s%08x", c ? "." : "", (unsigned)(ch ^ (ch >> 32))); rr_puts(out, tmp);
         }
         rr_puts(out, ";");
-        carquet_row_batch_free(b);
+        prev = b; prev_h = batch_plain_hash(b, f);
     }
+    if (prev) carquet_row_batch_free(prev);
     carquet_batch_reader_free(br);
 }
 
@@ -498,7 +522,7 @@ static void op_batch(void) {
     int eq = (got.h == base.h) && got.nst == base.nst;
     printf("OK eq=%d st=", eq); print_status_list(&got);
     printf(" base="); print_status_list(&base);
-    printf(" rows=%ld/%ld dev=%d used=%zu wrong=%d first=%ld", got.rows, base.rows, G.deviated, G.ti, wrong, firstwrong);
+    printf(" rows=%ld/%ld dev=%d used=%zu wrong=%d first=%ld unstable=%d/%d", got.rows, base.rows, G.deviated, G.ti, wrong, firstwrong, got.unstable, base.unstable);
     if (gm == GM_FORCED) {
         printf(" log=");
         for (size_t i = 0; i < G.nlog; i++) printf("%s%d:%d:%d:%ld", i ? "," : "", G.log[i].call, G.log[i].col, G.log[i].site, G.log[i].pos);
